@@ -96,6 +96,9 @@ func (d *Disjunct) Int(v ssa.Value) *lin.Lin { return d.it.intLin(d.d, d.f, v) }
 // Len returns len(v).
 func (d *Disjunct) Len(v ssa.Value) *lin.Lin { l, _ := d.it.lenCap(d.d, d.f, v); return l }
 
+// Cap returns cap(v).
+func (d *Disjunct) Cap(v ssa.Value) *lin.Lin { _, c := d.it.lenCap(d.d, d.f, v); return c }
+
 // IsNilKnown reports (isNil, known).
 func (d *Disjunct) IsNilKnown(v ssa.Value) (bool, bool) {
 	r := d.it.repOf(d.d, d.f, v)
